@@ -19,14 +19,21 @@ func (h *c07h) extraJobs(root *rng, tier string, jobs *[]*c07job) {
 	add := func(f func(j *c07job)) { *jobs = append(*jobs, &c07job{run: f}) }
 	for k := 0; k < nV; k++ {
 		r := root.fork()
-		add(func(j *c07job) { h.runVarHost(j, r, "") })
+		add(func(j *c07job) { h.runVarHost(j, r, "", nil) })
 		r2 := root.fork()
 		add(func(j *c07job) { h.runVarScript(j, r2) })
+	}
+	// the targets convertLiteralValue leaves alone: read directly after a change
+	for rep := 0; rep < nT; rep++ {
+		for _, ft := range []*c07t{ctAny, ctErr, c07slice(ctAny), c07slice(ctErr)} {
+			r, ft := root.fork(), ft
+			add(func(j *c07job) { h.runVarHost(j, r, "", ft) })
+		}
 	}
 	for _, region := range []string{"hostvar-stale", "hostvar-write-lit", "hostvar-nilptr"} {
 		for k := 0; k < nR; k++ {
 			r, region := root.fork(), region
-			add(func(j *c07job) { h.runVarHost(j, r, region) })
+			add(func(j *c07job) { h.runVarHost(j, r, region, nil) })
 		}
 	}
 	for k := 0; k < nM; k++ {
@@ -111,7 +118,7 @@ func c07compositeLit(v *cval) bool {
 // runVarHost: the host changes the variable after the script is compiled (hostchange), the script
 // reads it, writes it, reads it back. read/write: "direct" (host.V) or "ptr" (through p := &host.V),
 // write also "viavar" (host.V = t) and "none".
-func (h *c07h) runVarHost(j *c07job, r *rng, region string) {
+func (h *c07h) runVarHost(j *c07job, r *rng, region string, force *c07t) {
 	vg := &c07vgen{r: r}
 	var t *c07t
 	var v0, v1, v2 *cval
@@ -121,6 +128,9 @@ func (h *c07h) runVarHost(j *c07job, r *rng, region string) {
 	}
 	for {
 		t = h.valueType(r, 2, 1)
+		if force != nil {
+			t = force
+		}
 		v0, v1, v2 = c07fill(vg.val(t, false)), c07fill(vg.val(t, false)), c07fill(vg.val(t, false))
 		switch region {
 		case "hostvar-stale":
@@ -145,7 +155,7 @@ func (h *c07h) runVarHost(j *c07job, r *rng, region string) {
 		if region != "hostvar-nilptr" && t.K == ckPtr && v0.Nil {
 			continue
 		}
-		if region == "" && c07ifaceLike(t) && r.chance(60) {
+		if region == "" && c07ifaceLike(t) && (force != nil || r.chance(60)) {
 			// interface-like targets are not copied at compile time: direct reads stay live
 			read, hostchange = "direct", true
 			write = r.pick([]string{"ptr", "viavar", "none"})
